@@ -56,7 +56,7 @@ func (s *Sim) oracleC06(op Op, evs []SIEvent) {
 		}
 	}
 	// the confirmation of a swap: the placeholder is gone, usage did not grow anywhere
-	if op.Kind == "confirm" && op.Type == "PLACEHOLDER_REPLACED" && s.pre != nil && op.Fault == "" {
+	if op.Kind == "confirm" && op.Type == "PLACEHOLDER_REPLACED" && s.pre != nil && op.Fault == "" && !s.cfg.Auto {
 		if a := p.Apps[op.AppID]; a != nil {
 			if _, still := a.Allocs[op.Key]; still {
 				if pa := s.pre.Apps[op.AppID]; pa != nil && pa.Allocs[op.Key] != nil && pa.Allocs[op.Key].ReleaseKey != "" {
